@@ -15,8 +15,11 @@ committed updates.  Session(autoflush=True), expire_on_commit both ways.
 Operations: ext(o, a) (external UPDATE, committed at once, always a value
 different from the committed one), expire(o), expire(o, [a]), expire_all,
 refresh(o), refresh(o, [a]), commit, rollback, get(populate_existing=True),
-select(P) with and without populate_existing, set(o.a) (pending change),
-read(o.a).
+select(P) with and without populate_existing, part_pe(o, a) (populate_existing
+re-read of ONE object through a statement whose row delivers only SOME of the
+mapped columns: ``select(P).from_statement(text("select id, <a> from p where
+id = :pk"))`` - the primary key and column a are in the row, ``name`` and the
+other value column are not), set(o.a) (pending change), read(o.a).
 
 Reference (SnapModel below): the committed table; the *snapshot* the session's
 transaction sees (taken at its first statement after begin / commit /
@@ -42,7 +45,11 @@ Session.rollback() without a transaction is a no-op while commit() always
 expires; a flush of an object expired as a whole (primary key attribute
 expired) reads the key back and thereby loads its other expired attributes;
 the "modified" flag of an object survives an attribute-level expire of the
-change that set it.  The WAL file is created once per process and reset to
+change that set it; a populate_existing load from a row that lacks some
+mapped columns (after its autoflush) overwrites the delivered column and
+leaves every attribute not delivered *expired* (absent from __dict__, re-read
+from the transaction's snapshot on next access) - it may not keep the value
+loaded earlier.  The WAL file is created once per process and reset to
 its initial rows through the observer before every replay (a committed write,
 which also proves that no lock was left behind).
 
@@ -56,12 +63,28 @@ Mutations caught (private copy, VF_REPO=/tmp/wt-orm3):
  M4 session.py commit does not expire with expire_on_commit=True
  M5 state.py _load_expired also reloads attributes with pending changes ->
     "refresh(p2) -> p1.x is 1, reference 7"
+ M6 (seeded C46-a) loading.py _populate_full: with populate_existing the
+    mapped columns missing from the row are only added to
+    state.expired_attributes, their old value stays in __dict__ (and keeps
+    being returned although the row changed) -> "state eoc=True: {}
+    select(P).from_statement(text(id, x of p1)) populate_existing -> p1.y is
+    1, reference <expired>"; needs the part_pe operations (every other
+    operation delivers all mapped columns).
+
+Not in the alphabet (observed on the unchanged tree, left out on purpose):
+populate_existing together with load_only() / defer() options.  There the
+column that the option defers is neither overwritten nor expired (an earlier
+loaded value stays in __dict__, only a deferred-loader callable is installed)
+and the option becomes part of the state's load_options, which later
+refresh()/unexpire loads replay; whether that is covered by the property's
+"a query with populate_existing" is open, so it is not judged here.
 """
 import copy
 import gc
 
 from sqlalchemy import exc as sa_exc
 from sqlalchemy import select
+from sqlalchemy import text
 from sqlalchemy.orm import Session
 
 from ..engines import hist
@@ -72,11 +95,12 @@ ID = "C46"
 LEVEL = "model_checking"
 META = dict(
     engine="H",
-    technique="explicit-state BFS over histories of external committed writes interleaved with expire/refresh/commit/populate_existing/set/read on a real Session over a WAL file database, snapshot reference model in lock-step",
+    technique="explicit-state BFS over histories of external committed writes interleaved with expire/refresh/commit/populate_existing (full-row and partial-row statements)/set/read on a real Session over a WAL file database, snapshot reference model in lock-step",
     design_ref="DESIGN.md §5 C46",
-    level_text="Every history over 26-31 operations (external committed UPDATE through a second connection, expire of object / "
-    "attribute / everything, refresh of object / attribute, commit, rollback, get and select with populate_existing, plain "
-    "select, attribute set, attribute read) is replayed on a fresh WAL file database and a fresh Session for both "
+    level_text="Every history over 27-35 operations (external committed UPDATE through a second connection, expire of object / "
+    "attribute / everything, refresh of object / attribute, commit, rollback, get and select with populate_existing, "
+    "populate_existing through select(P).from_statement(text(...)) whose row delivers only the primary key and one of the "
+    "value columns (quick: the row of p1 with x and without y; thorough: one operation per object and column), plain select, attribute set, attribute read) is replayed on a fresh WAL file database and a fresh Session for both "
     "expire_on_commit settings; after every operation each attribute's loaded value / expiry, the value returned by a read, "
     "the committed table and the occurrence of SQLite's lock refusals are compared with a reference that models the "
     "committed table, the transaction snapshot and the pending / loaded / expired status of every attribute.",
@@ -91,7 +115,7 @@ META = dict(
         "SQLite WAL snapshot isolation, timeout=0, python sqlite3 autocommit=False (PEP 249 transaction control)",
         "one Session, one external writer that commits each statement immediately",
     ],
-    bounds=dict(quick="expire_on_commit x all histories of length <= 4 over 26 ops (canonical-state dedupe below each first op)", thorough="length <= 5 over the full alphabet (31 ops) for both objects"),
+    bounds=dict(quick="expire_on_commit x all histories of length <= 4 over 27 ops (one of them partial-row populate_existing: the row for p1 delivers id and x, not y / name; canonical-state dedupe below each first op)", thorough="length <= 5 over the full alphabet (35 ops, 4 of them partial-row populate_existing) for both objects"),
 )
 
 OBJS = ("p1", "p2")
@@ -121,6 +145,11 @@ def alphabet(tier):
     for o in OBJS:
         ops.append(["get_pe", o])
     ops += [["query_pe"], ["query"]]
+    # partial-row populate_existing: quick has the one that delivers p1.x and
+    # leaves p1.y (the active_history attribute) out of the row; thorough one
+    # per cell
+    for o, a in cells if tier != "quick" else [("p1", "x")]:
+        ops.append(["part_pe", o, a])
     for o, a in cells:
         ops.append(["set", o, a])
     for o, a in cells:
@@ -267,6 +296,16 @@ class SnapModel:
             for k in self.mem:
                 self.mem[k] = self.snap[k]
             self.pk_exp = {o: False for o in OBJS}
+        elif name == "part_pe":
+            # populate_existing through a statement whose row delivers only
+            # the primary key and ONE column: that column is overwritten, every
+            # other attribute of the object is not in the row and therefore
+            # has to be re-read on next access (= expired), never left stale
+            self.flush()
+            self.stmt()
+            self.pk_exp[op[1]] = False
+            for a in ATTRS:
+                self.mem[(op[1], a)] = self.snap[(op[1], a)] if a == op[2] else EXP
         elif name == "query":
             self.flush()
             self.stmt()
@@ -353,6 +392,21 @@ def build(eoc):
     return ctx
 
 
+_PART = {}
+
+
+def _part_stmt(w, a):
+    """select(P) whose rows come from a textual statement that delivers only
+    the primary key and column ``a`` (name and the other value column are
+    missing from the row), with populate_existing"""
+    st = _PART.get((w.key, a))
+    if st is None:
+        st = _PART[(w.key, a)] = (
+            select(w.P).from_statement(text("select id, %s from p where id = :pk" % a)).execution_options(populate_existing=True)
+        )
+    return st
+
+
 def apply_impl(ctx, op, model_before):
     """returns the value for read/ext; raises OperationalError when SQLite refuses"""
     s, objs, w = ctx.sess, ctx.objs, ctx.w
@@ -382,6 +436,10 @@ def apply_impl(ctx, op, model_before):
         res = s.execute(select(w.P).execution_options(populate_existing=True)).scalars().all()
         if {id(x) for x in res} != {id(x) for x in objs.values()}:
             raise AssertionError("query returned other instances")
+    elif name == "part_pe":
+        res = s.execute(_part_stmt(w, op[2]), {"pk": w.pk(op[1])}).scalars().all()
+        if [id(x) for x in res] != [id(objs[op[1]])]:
+            raise AssertionError("partial-row query returned other instances")
     elif name == "query":
         res = s.execute(select(w.P)).scalars().all()
         if {id(x) for x in res} != {id(x) for x in objs.values()}:
@@ -432,6 +490,8 @@ def op_text(op):
         return "get(P, %s, populate_existing=True)" % op[1]
     if n == "query_pe":
         return "select(P) populate_existing"
+    if n == "part_pe":
+        return "select(P).from_statement(text(id, %s of %s)) populate_existing" % (op[2], op[1])
     if n == "query":
         return "select(P)"
     if n == "set":
@@ -534,7 +594,7 @@ def make_step(rec, eoc, tier):
             fail("committed", hist_, op, "committed %s.%s is %r, reference %r" % (bad[0], bad[1], rows[bad], m2.committed[bad]), ms)
             return None
         rec.outcome((op[0], "locked" if exp_locked else exp_ret if op[0] == "ext" else "ok", tuple(sorted(k for k, x in m2.mem.items() if x == EXP)), tuple(sorted(k for k, x in m2.mem.items() if x != EXP and x != m2.committed[k]))))
-        if ms.stale() and op[0] in ("read", "refresh", "refresh1", "get_pe", "query_pe", "commit"):
+        if ms.stale() and op[0] in ("read", "refresh", "refresh1", "get_pe", "query_pe", "part_pe", "commit"):
             rec.sample(dict(config=name, history=[op_text(h) for h in hist_], op=op_text(op), result=exp_ret, committed={"%s.%s" % k: x for k, x in sorted(m2.committed.items())}, memory={"%s.%s" % k: x for k, x in sorted(m2.mem.items())}), limit=2)
         return m2, repr(m2.key())
 
